@@ -52,6 +52,7 @@ pub fn value(t: RecordType, ix: usize) -> Option<RData> {
         RecordType::CNAME => RData::CNAME(CNAME([n("a.example.com."), n("target.example.net."), n("b.example.com.")][ix % 3].clone())),
         RecordType::NS => RData::NS(NS([n("ns1.example.com."), n("ns2.example.com."), n("ns3.example.net.")][ix % 3].clone())),
         RecordType::MX => RData::MX(MX::new(10 + (ix % 2) as u16, n("mail.example.com."))),
+        RecordType::NULL => RData::NULL(hickory_proto::rr::rdata::NULL::with(vec![1 + (ix % 2) as u8; 3])),
         RecordType::SOA => {
             let serial = [50u32, 1000, 0x8000_0100, 5, 0xFFFF_FFFF][ix % 5];
             RData::SOA(SOA::new(n("ns1.example.com."), n(["admin.example.com.", "root.example.com."][ix % 2]), serial, 3600, 600, 86400, 60))
@@ -281,7 +282,7 @@ impl Malform for RecSpec {
         if !on {
             return self;
         }
-        match r.below(6) {
+        match r.below(7) {
             0 => self.ttl = 7,
             1 => self.class = 3,
             2 => self.rtype = 7, // AXFR
@@ -294,6 +295,11 @@ impl Malform for RecSpec {
                 }
             }
             4 => self.rtype = 6, // ANY
+            5 => {
+                // TYPE NULL carrying RDATA (hickory represents "empty RDATA" as NULL in places)
+                self.rtype = 8;
+                self.rdata = Some(r.usize_below(2));
+            }
             _ => self.name = 5,
         }
         self
@@ -573,7 +579,12 @@ async fn c12_scenario(p: C12Plan) {
             // query-style lookups get their own invariant id and a cause-specific shape.
             let causes: BTreeSet<&str> = pre.iter().filter_map(|r| before.lookup_cause(r)).collect();
             let prereq_code = matches!(got_rc, ResponseCode::NXDomain | ResponseCode::NXRRSet | ResponseCode::YXDomain | ResponseCode::YXRRSet);
-            let fatal = if !causes.is_empty() && (stage == "prereq" || prereq_code) {
+            // hickory matches `RData::NULL(..)` where it means "empty RDATA": a TYPE NULL record
+            // that does carry RDATA in a CLASS ANY / NONE position is accepted instead of FORMERR
+            let null_rdata_meta = pre.iter().chain(upd.iter()).any(|r| matches!(r.class, DNSClass::ANY | DNSClass::NONE) && r.rtype == RecordType::NULL && r.rdata.is_some());
+            let fatal = if null_rdata_meta && exp_set.contains(&ResponseCode::FormErr) {
+                exec::violate("C12.rcode", "type-null-rdata-in-meta-class-accepted", format!("message {i} ({m:?}): RFC 2136 {stage} gives {exp_txt}, server answered {got_rc:?}"))
+            } else if !causes.is_empty() && (stage == "prereq" || prereq_code) {
                 // one cause per report, by fixed priority, so that the shape is stable
                 let cause = ["at-or-below-delegation", "cname-at-owner", "value-prereq-subset-of-rrset"].into_iter().find(|c| causes.contains(c)).unwrap_or("other").to_string();
                 exec::violate("C12.prereq", &cause, format!("message {i} ({m:?}): RFC 2136 {stage} gives {exp_txt}, server answered {got_rc:?}"))
@@ -1074,5 +1085,265 @@ async fn c14_scenario(p: C14Plan) {
 }
 
 pub fn def_c14() -> CheckDef {
-    CheckDef { id: "C14", level: "fault_enumeration", parts: vec![Box::new(C14Part)] }
+    CheckDef { id: "C14", level: "fault_enumeration", parts: vec![Box::new(C14Part), Box::new(StartupPart)] }
+}
+
+// ==========================================================================================
+// C14 part "startup": the real start-up path (`try_from_config`) on real files: zone file,
+// journal file, TSIG key file under a root directory that is not the working directory.
+
+use hickory_server::store::sqlite::{SqliteConfig, TsigKeyConfig};
+use std::path::{Path, PathBuf};
+
+#[derive(Serialize, Deserialize, Clone, Debug)]
+struct StartupPlan {
+    sim: SimConfig,
+    initial_serial: u32,
+    /// update histories between restarts
+    phases: Vec<Vec<UpdateMsg>>,
+    /// the journal file exists (schema only, no rows) before the very first start: the stop hit
+    /// after the file was created and before the initial dump committed
+    empty_journal_first: bool,
+    /// which journal commit boundary (index modulo count) of the first phase is additionally
+    /// tried as a crash point through the start-up path
+    crash_pick: u64,
+}
+
+pub struct StartupPart;
+
+struct TempDir(PathBuf);
+impl TempDir {
+    fn new(tag: u64) -> Self {
+        let base = if Path::new("/dev/shm").is_dir() { PathBuf::from("/dev/shm") } else { std::env::temp_dir() };
+        let p = base.join(format!("hv-c14-{}-{tag:x}", std::process::id()));
+        let _ = std::fs::remove_dir_all(&p);
+        std::fs::create_dir_all(&p).expect("tempdir");
+        Self(p)
+    }
+}
+impl Drop for TempDir {
+    fn drop(&mut self) {
+        let _ = std::fs::remove_dir_all(&self.0);
+    }
+}
+
+fn zone_file_text(u: &Universe, serial: u32) -> String {
+    let mut s = String::new();
+    s.push_str("$ORIGIN example.com.\n$TTL 3600\n");
+    for r in initial_records(u, serial) {
+        s.push_str(&format!("{} {} IN {} {}\n", r.name, r.ttl, r.record_type(), r.data));
+    }
+    s
+}
+
+fn startup_config() -> SqliteConfig {
+    SqliteConfig {
+        zone_path: PathBuf::from("example.com.zone"),
+        journal_path: PathBuf::from("example.com.jrnl"),
+        allow_update: true,
+        tsig_keys: vec![TsigKeyConfig { name: KEY_NAME.to_string(), key_file: PathBuf::from("update.key"), algorithm: TsigAlgorithm::HmacSha256, fudge: 300 }],
+    }
+}
+
+async fn start(u: &Universe, root: &Path) -> Result<SqliteZoneHandler<SimProvider>, String> {
+    SqliteZoneHandler::<SimProvider>::try_from_config(u.origin.clone(), ZoneType::Primary, AxfrPolicy::AllowAll, false, Some(root), &startup_config(), None).await
+}
+
+impl Part for StartupPart {
+    fn name(&self) -> &'static str {
+        "startup"
+    }
+    fn runs(&self, tier: Tier) -> u64 {
+        match tier {
+            Tier::Quick => 1_500,
+            Tier::Thorough => 60_000,
+        }
+    }
+    fn block(&self, _t: Tier) -> u64 {
+        16
+    }
+    fn gen(&self, seed: u64, _tier: Tier) -> Value {
+        let mut r = Rng::new(seed);
+        let sim = SimConfig::from_seed(seed);
+        let nph = 1 + r.usize_below(3);
+        let phases = (0..nph)
+            .map(|_| {
+                let mut h = gen_history(&mut r, 3, false);
+                for m in h.iter_mut() {
+                    m.prereq.clear();
+                }
+                h
+            })
+            .collect();
+        serde_json::to_value(StartupPlan { sim, initial_serial: *r.pick(&[100u32, 100, 0xFFFF_FFFE]), phases, empty_journal_first: r.chance(1, 4), crash_pick: r.next_u64() % 1000 }).unwrap()
+    }
+    fn run(&self, plan: &Value, trace: bool) -> Report {
+        let mut p: StartupPlan = serde_json::from_value(plan.clone()).expect("plan");
+        p.sim.trace = trace;
+        let all: Vec<UpdateMsg> = p.phases.iter().flatten().cloned().collect();
+        let (mut sig, _) = history_sig(&all);
+        sig = mix(sig ^ (p.phases.len() as u64) << 50 ^ (p.empty_journal_first as u64) << 55);
+        let tag = mix(sig ^ p.sim.sched_seed);
+        let p2 = p.clone();
+        let out = exec::run(&p.sim, async move { startup_scenario(p2, tag).await });
+        finish(out, sig, true, "C14.stall")
+    }
+    fn shrink(&self, plan: &Value) -> Vec<Value> {
+        let Ok(p) = serde_json::from_value::<StartupPlan>(plan.clone()) else { return vec![] };
+        let mut out = Vec::new();
+        if p.phases.len() > 1 {
+            for i in 0..p.phases.len() {
+                let mut q = p.clone();
+                q.phases.remove(i);
+                out.push(q);
+            }
+        }
+        for i in 0..p.phases.len() {
+            for h in shrink_history(&p.phases[i]) {
+                let mut q = p.clone();
+                q.phases[i] = h;
+                out.push(q);
+            }
+        }
+        if p.empty_journal_first {
+            let mut q = p.clone();
+            q.empty_journal_first = false;
+            out.push(q);
+        }
+        out.into_iter().map(|q| serde_json::to_value(q).unwrap()).collect()
+    }
+    fn describe(&self) -> Describe {
+        Describe {
+            rule: "plan = 1-3 phases of 1-3 UPDATE messages separated by restarts through the real SqliteZoneHandler::try_from_config on real files (zone file, SQLite journal file, TSIG key file, all relative to a root directory that is not the working directory); optionally the journal file pre-exists with its schema but without rows (stop between file creation and the initial dump); one commit boundary of the first phase is cut into a journal file and started from; oracle = zone content and serial before the stop".into(),
+            real: vec!["SqliteZoneHandler::try_from_config (journal-vs-zone-file decision, rooted paths, TSIG key loading)", "Journal::from_file / schema_up on a real SQLite file", "zone_from_path / master-file parser", "recover_with_journal, persist_to_journal, update path as in part crash"],
+            stub: vec!["stop = dropping the handler (closes SQLite) or copying a committed row prefix into a fresh journal file"],
+            assumptions: vec!["files live on tmpfs; fsync behaviour of a real disk is not modelled (commit boundaries are)"],
+        }
+    }
+}
+
+async fn startup_scenario(p: StartupPlan, tag: u64) {
+    let u = universe();
+    let dir = TempDir::new(tag);
+    let root = dir.0.clone();
+    std::fs::write(root.join("example.com.zone"), zone_file_text(&u, p.initial_serial)).expect("zone file");
+    std::fs::write(root.join("update.key"), KEY_SECRET).expect("key file");
+    if p.empty_journal_first {
+        // what a stop right after the journal file was created leaves behind
+        match Journal::from_file(&root.join("example.com.jrnl")) {
+            Ok(j) => drop(j),
+            Err(e) => {
+                exec::violate("C14.harness", "", format!("cannot create journal file: {e}"));
+                return;
+            }
+        }
+        exec::count("fault.stop_before_initial_dump");
+    }
+    let init = initial_records(&u, p.initial_serial);
+    let expected0 = model_from_records(&u, &init, p.initial_serial);
+    let mut expected: ZoneState = (expected0.rrsets.clone(), p.initial_serial);
+    let dummy = Arc::new(Mutex::new(Hooked::default()));
+    for (pi, phase) in p.phases.iter().enumerate() {
+        let handler = match start(&u, &root).await {
+            Ok(h) => h,
+            Err(e) => {
+                let shape = if pi == 0 && p.empty_journal_first { "first-start-with-empty-journal" } else if pi == 0 { "first-start" } else { "restart" };
+                exec::violate("C14.start-fails", shape, format!("start #{pi}: {e}"));
+                return;
+            }
+        };
+        exec::count("fault.restart");
+        let server = Server::new(&u, handler);
+        let (z, s, _) = server.dump().await;
+        if (z.clone(), s) != expected {
+            let shape = if pi == 0 && p.empty_journal_first { "first-start-with-empty-journal" } else if pi == 0 { "first-start" } else { "restart" };
+            let kind = if z == expected.0 { format!("serial {s} != {}", expected.1) } else { diff_zone(&z, &expected.0) };
+            exec::violate("C14.state-after-start", shape, format!("start #{pi}: zone differs from the zone before the stop: {kind}"));
+            return;
+        }
+        // hooks on the live journal, to know the commit boundaries of this phase
+        let hooked = Arc::new(Mutex::new(Hooked::default()));
+        let rows_at_start = {
+            let g = server.handler.journal().await;
+            let j = g.as_ref().expect("journal");
+            install_hooks(j, hooked.clone());
+            read_rows(j).len() as u64
+        };
+        let t = match run_history(&server, &u, phase, &dummy, 0x5000 + 0x100 * pi as u16, None).await {
+            Ok(t) => t,
+            Err(e) => {
+                exec::violate("C14.harness", "", e);
+                return;
+            }
+        };
+        expected = t.states.last().cloned().unwrap();
+        // one crash point of the first phase through the real start-up path
+        if pi == 0 {
+            let (all_rows, bounds) = {
+                let g = server.handler.journal().await;
+                let j = g.as_ref().expect("journal");
+                let rows = read_rows(j);
+                let mut b: Vec<u64> = hooked.lock().unwrap().boundaries.iter().map(|x| x + rows_at_start).collect();
+                b.push(rows_at_start);
+                b.sort_unstable();
+                b.dedup();
+                (rows, b)
+            };
+            if !bounds.is_empty() {
+                let b = bounds[(p.crash_pick as usize) % bounds.len()].min(all_rows.len() as u64);
+                let cdir = TempDir::new(tag ^ 0x77);
+                std::fs::copy(root.join("example.com.zone"), cdir.0.join("example.com.zone")).ok();
+                std::fs::copy(root.join("update.key"), cdir.0.join("update.key")).ok();
+                {
+                    let j = match Journal::from_file(&cdir.0.join("example.com.jrnl")) {
+                        Ok(j) => j,
+                        Err(e) => {
+                            exec::violate("C14.harness", "", format!("journal copy: {e}"));
+                            return;
+                        }
+                    };
+                    let conn = j.conn();
+                    for (c, s, tt, r) in &all_rows[..b as usize] {
+                        conn.execute("INSERT INTO records (client_id, soa_serial, timestamp, record) VALUES (?1, ?2, ?3, ?4)", rusqlite::params![c, s, tt, r]).expect("insert");
+                    }
+                }
+                exec::count("fault.crash_via_startup");
+                match start(&u, &cdir.0).await {
+                    Err(e) => {
+                        exec::violate("C14.start-fails", "after-crash", format!("journal file cut after {b} rows: {e}"));
+                        return;
+                    }
+                    Ok(h) => {
+                        let srv = Server::new(&u, h);
+                        let (z, s, _) = srv.dump().await;
+                        // row boundaries of this phase, relative to the whole journal
+                        let ok = t.states.iter().enumerate().any(|(j, st)| {
+                            let lo_ok = (0..j).all(|i| t.rows_before[i] + rows_at_start < b || t.rows_after[i] == t.rows_before[i]);
+                            let hi_ok = (j..t.rcodes.len()).all(|i| t.rows_after[i] + rows_at_start > b || t.rows_after[i] == t.rows_before[i]);
+                            *st == (z.clone(), s) && lo_ok && hi_ok
+                        });
+                        if !ok {
+                            exec::violate("C14.state-after-start", "after-crash", format!("journal file cut after {b} of {} rows: started zone is not the zone after a whole number of messages (serial {s})", all_rows.len()));
+                            return;
+                        }
+                    }
+                }
+            }
+        }
+        drop(server);
+    }
+    // final restart
+    match start(&u, &root).await {
+        Ok(h) => {
+            let server = Server::new(&u, h);
+            let (z, s, _) = server.dump().await;
+            if (z.clone(), s) != expected {
+                let kind = if z == expected.0 { format!("serial {s} != {}", expected.1) } else { diff_zone(&z, &expected.0) };
+                exec::violate("C14.state-after-start", "restart", format!("final restart: zone differs from the zone before the stop: {kind}"));
+            }
+        }
+        Err(e) => {
+            exec::violate("C14.start-fails", "restart", format!("final restart: {e}"));
+        }
+    }
 }
